@@ -422,6 +422,18 @@ func cmdCheck(args []string) int {
 	outDir := filepath.Join(root, "out", "smt", *prop)
 	os.RemoveAll(outDir)
 	dischargeAll(ctxs, outDir, timeout, 8, *tier == "thorough")
+	// keep the disk footprint small: the query files of obligations that were discharged are not needed again
+	// (a failing obligation keeps its files: they are what the replay file points to)
+	if os.Getenv("GOVC_KEEP_SMT") == "" {
+		for _, c := range ctxs {
+			for _, o := range c.obls {
+				if o.File != "" && (o.Verdict == "discharged" || o.Verdict == "reachable") {
+					os.Remove(o.File)
+					os.Remove(strings.TrimSuffix(o.File, ".smt2") + ".refute.smt2")
+				}
+			}
+		}
+	}
 
 	// classify
 	total, discharged := 0, 0
